@@ -294,14 +294,16 @@ def obligations(tier):
     from pydiffx.writer import DiffXWriter
     quick = tier == 'quick'
     obs = []
-    if hasattr(DiffXWriter, '_new_container_section') and hasattr(DiffXWriter, '_new_content_section'):
+    from harness.rw import writer_internals_missing
+    missing = writer_internals_missing()
+    if missing is None:
         obs.append(Ob('step[arbitrary-state]', ob_step, {}, must_reach=['DiffXWriter._validate_section'], path_timeout=20,
                       desc='one writer call (valid and invalid argument variants, symbolic text / codec-name characters) '
                            'from an arbitrary valid writer state: accepted <=> hierarchy allows; rejected => no stream '
                            'operation and state deep-equal; accepted => appends only, invariant re-established',
                       bounds={'states': '9 ids x encoding chains over %s' % ENCS, 'call_variants': 26}))
     else:
-        obs.append(('skipped', 'step[arbitrary-state]', 'DiffXWriter internals (_stack/_prev_section) not found'))
+        obs.append(('skipped', 'step[arbitrary-state]', missing))
     obs.append(Ob('constructor', ob_init, {}, desc='constructor with valid / invalid version and symbolic encoding name',
                   bounds={'name_len': [1, 2]}))
     K = 4 if quick else 6
@@ -322,6 +324,9 @@ def validate(tier):
     real calls produce"""
     import io
     from pydiffx.writer import DiffXWriter
+    from harness.rw import writer_internals_missing
+    if writer_internals_missing() is not None:
+        return 0
     n = 0
     w = DiffXWriter(io.BytesIO(), encoding='utf-16')
     assert _snapshot(w) == ([{'encoding': 'utf-16'}, {'encoding': 'utf-16'}], 'diffx'), _snapshot(w)
